@@ -78,6 +78,23 @@ def masks_for(n, rng):
     return out
 
 
+def normalise_lines(lines):
+    """make the line probabilities of one file sum to 1 (as the trainer writes them), keeping ties and order"""
+    tot = sum(p for _, p in lines)
+    if tot <= 0:
+        return [(v, 1.0 / len(lines)) for v, _ in lines]
+    return [(v, p / tot) for v, p in lines]
+
+
+def normalise(rs):
+    """every terminal file and the base-structure list sum to 1, like a trained ruleset"""
+    for k in rs["files"]:
+        rs["files"][k] = normalise_lines(rs["files"][k])
+    rs["grammar"] = sorted(normalise_lines(rs["grammar"]), key=lambda x: -x[1])
+    rs["prince"] = sorted(normalise_lines(rs["prince"]), key=lambda x: -x[1])
+    return rs
+
+
 def gen_ruleset(rng, with_markov=None, max_bases=4, max_len=5, name="T"):
     """A random ruleset description."""
     rs = {"name": name, "encoding": "utf-8", "uuid": str(_uuid.UUID(int=rng.getrandbits(128))),
